@@ -82,3 +82,10 @@ Proof. eexists. vm_compute. repeat split. Qed.
 Theorem C10_source_failure_order : ShapeLib.client_failure_order = true.
 Proof. exact PClient.client_failure_order_ok. Qed.
 Print Assumptions C10_source_failure_order.
+
+
+(* ---- a modelling assumption about the shape of the CURRENT source (Gen/Shape.v), re-checked on every run ---- *)
+(* all four failure paths of the receive loop publish the error before done is closed; the done branch of the hand-over reports no error of its own *)
+Theorem C10_source_failure_paths : ShapeLib.client_failure_paths = true.
+Proof. exact PClient.client_failure_paths_ok. Qed.
+Print Assumptions C10_source_failure_paths.
